@@ -512,27 +512,28 @@ template <typename T> static bool is_special_encoding(const XV& v) {
   return v.q == ti.hi || v.q == ti.hi - 1 || v.q == ti.hi - 2;
 }
 template <typename T1, typename T2> static const char* cmp_class(const std::string& entry, const XV& a, const XV& b) {
+  // input conditions under which the known comparison defects apply (known_findings.d/C11.json)
   bool g = entry.find("greater") != std::string::npos || entry.find("operator>") != std::string::npos;
-  if (a.kind == 2 || b.kind == 2) {
-    // less_than / less_or_equal (and operator< / <=) of an integer too wide for the float's mantissa against a float NaN;
-    // greater_than(x, y) is lt_ext(y, x): the same defect with the operands exchanged
-    bool l = entry.find("less") != std::string::npos || entry.find("operator<") != std::string::npos;
-    if (l && NT<T1>::is_int && NT<T2>::is_float && NT<T1>::bits > NT<T2>::mant && b.kind == 2) return "less-wide-int-vs-float-nan";
-    if (g && ((NT<T1>::is_float && is_special_encoding<T2>(b)) || (NT<T2>::is_float && is_special_encoding<T1>(a))))
-      return "greater-with-int-equal-to-a-special-encoding";
-    if (g && NT<T2>::is_int && NT<T1>::is_float && NT<T2>::bits > NT<T1>::mant && a.kind == 2) return "less-wide-int-vs-float-nan";
-    return "nan-operand";
-  }
-  // a floating point operand equal to max+1 of the integer operand's type (the conversion defect conv/float-source-equals-int-max+1)
-  if (NT<T1>::is_int && NT<T2>::is_float && NT<T1>::bits > NT<T2>::mant && b.kind == 0 && b.q == to_info<T1>().hi + 1) return "float-equals-int-max+1";
-  if (NT<T2>::is_int && NT<T1>::is_float && NT<T2>::bits > NT<T1>::mant && a.kind == 0 && a.q == to_info<T2>().hi + 1) return "float-equals-int-max+1";
-  if (g && ((NT<T1>::is_float && is_special_encoding<T2>(b)) || (NT<T2>::is_float && is_special_encoding<T1>(a))))
-    return "greater-with-int-equal-to-a-special-encoding";
-  // the pairs (floating type, integer type wider than its mantissa) where the integer is not representable in the
-  // floating type go through an FPU inexact-flag test
-  if (NT<T1>::is_float && NT<T2>::is_int && NT<T2>::bits > NT<T1>::mant && !representable_in_float_type<T1>(b, NT<T1>::mant)) return "float-vs-wide-int-not-representable";
-  if (NT<T2>::is_float && NT<T1>::is_int && NT<T1>::bits > NT<T2>::mant && !representable_in_float_type<T2>(a, NT<T2>::mant)) return "float-vs-wide-int-not-representable";
-  return "other";
+  bool l = entry.find("less") != std::string::npos || entry.find("operator<") != std::string::npos;
+  bool nan = a.kind == 2 || b.kind == 2;
+  // (7) less_than / less_or_equal of an integer too wide for the float's mantissa against a float NaN (greater_*(x, y) is lt/le(y, x))
+  bool p_nan = (l && NT<T1>::is_int && NT<T2>::is_float && NT<T1>::bits > NT<T2>::mant && b.kind == 2)
+            || (g && NT<T2>::is_int && NT<T1>::is_float && NT<T2>::bits > NT<T1>::mant && a.kind == 2);
+  // (6) greater_* with an integer equal to a special encoding against a float
+  bool p_spec = g && ((NT<T1>::is_float && is_special_encoding<T2>(b)) || (NT<T2>::is_float && is_special_encoding<T1>(a)));
+  // (8) a float equal to max+1 of the integer operand's type
+  bool p_max = !nan && ((NT<T1>::is_int && NT<T2>::is_float && NT<T1>::bits > NT<T2>::mant && b.kind == 0 && b.q == to_info<T1>().hi + 1)
+                     || (NT<T2>::is_int && NT<T1>::is_float && NT<T2>::bits > NT<T1>::mant && a.kind == 0 && a.q == to_info<T2>().hi + 1));
+  // (5) a float against an integer wider than its mantissa and not representable in it (FPU inexact-flag test)
+  bool p_wide = !nan && ((NT<T1>::is_float && NT<T2>::is_int && NT<T2>::bits > NT<T1>::mant && !representable_in_float_type<T1>(b, NT<T1>::mant))
+                      || (NT<T2>::is_float && NT<T1>::is_int && NT<T1>::bits > NT<T2>::mant && !representable_in_float_type<T2>(a, NT<T2>::mant)));
+  int n = (p_nan ? 1 : 0) + (p_spec ? 1 : 0) + (p_max ? 1 : 0) + (p_wide ? 1 : 0);
+  if (n >= 2) return "several-known-defects-apply";
+  if (p_nan) return "less-wide-int-vs-float-nan";
+  if (p_spec) return "greater-with-int-equal-to-a-special-encoding";
+  if (p_max) return "float-equals-int-max+1";
+  if (p_wide) return "float-vs-wide-int-not-representable";
+  return nan ? "nan-operand" : "other";
 }
 
 // cmp() is specialised for operands of the same type only
